@@ -5,7 +5,7 @@ from __future__ import annotations
 import ast
 
 from ..astutil import (
-    attr_stores, call_name, calls_in, dotted, enclosing_withs, guard_atoms, lexical_guards, name_stores,
+    attr_stores, call_name, calls_in, dotted, enclosing_withs, func_defaults, guard_atoms, lexical_guards, name_stores,
     names_in, own_exprs, test_atoms, unparse, walk_local,
 )
 from ..cfg import no_exc
@@ -1308,6 +1308,575 @@ def _gc_ownership(ctx):
               f"(checkedout() stays above the number of live checkouts, the pool runs dry)",
               f"every normal exit passes {recp}.checkin() or an outcome 'no record / fairy_ref is None / not ours'",
               F.loc, g.describe_path(w) if w else None)
+
+
+# ====================================================================== C25-R7 (= C26-R8)
+# Pool accounting, the exceptional half: NO SLOT IS LOST ON ANY EXIT.
+#
+# A record that is checked out counts against the pool's limits until somebody hands it back (Pool._return_conn /
+# _do_return_conn, directly or through a function that ends in it on all its normal paths).  A function that hands a
+# record back on its way *holds* that record -- from its entry when the record is (reachable from) a parameter, from
+# the statement that obtains it otherwise -- and the clause is: every EXCEPTIONAL exit reachable while it holds the
+# record passes a hand-back of that record as well (or a branch outcome that says there is nothing to hand back: no
+# record, marker already cleared, marker is somebody else's).  The caller of a function that raised gets no result and
+# cannot tell how far it came, so nobody else returns the record: checkedout() stays above the number of live
+# checkouts for good (C25), "once every holder has released its connection the pool reports zero" fails (C26).
+#
+# Nothing here is keyed on a function name of the checkout protocol except the two primitives of the documented return
+# protocol (`Pool._return_conn` -> `_do_return_conn` of the subclass):
+#   * which calls hand back, and which record: `_Slots.handback` -- a summary per function of pool/base.py, closed
+#     under calls (receiver classes from annotations, constant arguments / defaults decide the callee's switches);
+#     today: checkin, _checkin_failed, detach, _finalize_fairy, _ConnectionFairy._checkin / _close /
+#     invalidate(hard), Pool._return_conn;
+#   * the family: every function of pool/base.py whose normal form contains such a call;
+#   * which statements can raise: `_Slots.call_quiet` -- a call raises unless it provably ends in logging, in an
+#     operation of a Python container / a listed total builtin, or in package functions of which the same holds
+#     (again closed under calls, switches decided by the constant arguments).  Opaque calls -- the DBAPI / dialect,
+#     event listeners, stored callbacks -- raise, and they raise BaseException (strict handler semantics:
+#     `except Exception` lets CancelledError / KeyboardInterrupt / GreenletExit through).
+#   * Exception to "opaque raises", as a reasoned table: discarding a connection is assumed to complete.
+DISCARD_COMPLETES = {
+    f"{POOL}::_ConnectionRecord.invalidate": "discards the DBAPI connection: Pool._close_connection swallows every Exception of "
+                                             "the driver's close (C26-R4); listeners of the invalidate / close events that raise "
+                                             "are outside the decided clauses (C26 not_decided)",
+    f"{POOL}::_ConnectionRecord.__close": "same (the body of invalidate)",
+    f"{POOL}::_ConnectionRecord.close": "same (public spelling of __close)",
+    f"{POOL}::Pool._close_connection": "swallows every Exception of the driver's close / terminate (C26-R4)",
+}
+_RETURN_PRIMS = ("_return_conn", "_do_return_conn")
+_ACQUIRE_PRIM = "_do_get"            # its dual: `rec = pool._do_get()` takes a record out of the pool
+# total functions of Python / the stdlib (meaning of Python, not text of /repo)
+_TOTAL_CALLS = frozenset((
+    "isinstance", "issubclass", "len", "bool", "id", "type", "repr", "str", "callable", "hasattr", "getattr", "cast",
+    "list", "tuple", "dict", "set", "frozenset", "deque", "weakref.ref", "time.time", "time.monotonic", "util.safe_reraise", "safe_reraise",
+))
+_CONTAINER_TYPES = frozenset(("Deque", "deque", "List", "list", "Dict", "dict", "Set", "set", "DefaultDict", "defaultdict",
+                              "MutableMapping", "MutableSequence", "MutableSet", "OrderedDict", "WeakKeyDictionary", "WeakValueDictionary"))
+_CONTAINER_OPS = frozenset(("pop", "popleft", "append", "appendleft", "clear", "get", "copy", "add", "discard", "extend",
+                            "update", "setdefault", "keys", "values", "items"))
+_EXC_ONLY = lambda a, b, lab: lab == "exc"  # noqa: E731
+
+
+def _ann_head(ann):
+    """last name of the outermost type of an annotation (`Deque[...]` -> Deque, `"Dict[..]"` -> Dict)."""
+    if isinstance(ann, ast.Constant) and isinstance(ann.value, str):
+        try:
+            ann = ast.parse(ann.value, mode="eval").body
+        except SyntaxError:
+            return None
+    if isinstance(ann, ast.Subscript):
+        h = (dotted(ann.value) or "").split(".")[-1]
+        if h in ("Optional", "Final", "ClassVar"):
+            return _ann_head(ann.slice)
+        return h
+    return (dotted(ann) or "").split(".")[-1] or None
+
+
+class _Slots:
+    """Interprocedural facts about pool/base.py for the hand-back clause (see above)."""
+
+    MAX_DEPTH = 6
+
+    def __init__(self, ctx):
+        self.ctx = ctx
+        self.ix = ctx.index
+        self.m = ctx.index.module(POOL)
+        self.funcs = [f for f in self.ix.all_functions(self.m) if not f.type_only and not f.is_overload]
+        self._hb = {}
+        self._quiet = {}
+        self._busy_hb = set()
+        self._busy_q = set()
+
+    # ------------------------------------------------------------------ static types (annotations only)
+    def _ann(self, m, ann):
+        from ._helpers_rules_c import _ann_class
+        return _ann_class(self.ix, m, ann)
+
+    def _pick(self, classes):
+        cs = [c for c in classes if c is not None]
+        if not cs:
+            return None
+        best = cs[0]
+        for c in cs[1:]:
+            if self.ix.is_subclass(c, best):
+                best = c
+            elif not self.ix.is_subclass(best, c):
+                return None
+        return best
+
+    def cls_of(self, f, e, depth=0):
+        """ClassInfo of expression `e` inside function `f`, from annotations; None = unknown."""
+        if depth > 4:
+            return None
+        ix = self.ix
+        if isinstance(e, ast.Name):
+            if e.id in ("self", "cls") and f.cls is not None and f.params[:1] == [e.id]:
+                return f.cls
+            a = f.node.args
+            for arg in a.posonlyargs + a.args + a.kwonlyargs:
+                if arg.arg == e.id:
+                    c = self._ann(f.module, arg.annotation)
+                    if c is not None:
+                        return c
+            found = []
+            for nm, val, st in name_stores(f.node):
+                if nm != e.id or val is None or (isinstance(val, ast.Constant) and val.value is None):
+                    continue
+                found.append(self.cls_of(f, val, depth + 1))
+            return self._pick(found) if found and all(c is not None for c in found) else None
+        if isinstance(e, ast.Attribute):
+            c = self.cls_of(f, e.value, depth + 1)
+            if c is None:
+                return None
+            for k in ix.mro(c):
+                for st in k.node.body:
+                    if isinstance(st, ast.AnnAssign) and isinstance(st.target, ast.Name) and st.target.id == e.attr:
+                        r = self._ann(k.module, st.annotation)
+                        if r is not None:
+                            return r
+                init = k.methods.get("__init__")
+                if init is not None:
+                    for d, t, st in attr_stores(init.node):
+                        if d == "self." + e.attr and isinstance(st, ast.Assign) and isinstance(st.value, ast.Name):
+                            for arg in init.node.args.posonlyargs + init.node.args.args + init.node.args.kwonlyargs:
+                                if arg.arg == st.value.id:
+                                    r = self._ann(k.module, arg.annotation)
+                                    if r is not None:
+                                        return r
+            return None
+        if isinstance(e, ast.Call):
+            nm = call_name(e)
+            if nm and nm.split(".")[-1] == "cast" and len(e.args) == 2:
+                return self._ann(f.module, e.args[0])
+            ts = self.targets(f, e)
+            if isinstance(ts, list) and ts:
+                out = []
+                for t in ts:
+                    if t.name == "__init__" and t.cls is not None:
+                        out.append(t.cls)
+                    else:
+                        out.append(self._ann(t.module, t.node.returns))
+                return self._pick(out) if all(c is not None for c in out) else None
+            if nm:
+                r = ix.resolve(f.module, nm) if "()" not in nm else None
+                from ..index import ClassInfo
+                if isinstance(r, ClassInfo):
+                    return r
+        return None
+
+    def _container(self, f, recv):
+        """Is `recv` (expr) declared as a plain Python container?"""
+        ann = None
+        if isinstance(recv, ast.Name):
+            for st in self.m.tree.body if f.module is self.m else f.module.tree.body:
+                if isinstance(st, ast.AnnAssign) and isinstance(st.target, ast.Name) and st.target.id == recv.id:
+                    ann = st.annotation
+            for nm, val, st in name_stores(f.node):
+                if nm == recv.id and val is not None:
+                    if isinstance(val, (ast.List, ast.Dict, ast.Set, ast.ListComp, ast.DictComp, ast.SetComp)):
+                        return True
+                    if isinstance(val, ast.Call) and (call_name(val) or "") in ("list", "dict", "set", "deque", "collections.deque"):
+                        return True
+        elif isinstance(recv, ast.Attribute):
+            c = self.cls_of(f, recv.value)
+            if c is not None:
+                for k in self.ix.mro(c):
+                    for st in k.node.body:
+                        if isinstance(st, ast.AnnAssign) and isinstance(st.target, ast.Name) and st.target.id == recv.attr:
+                            ann = ann or st.annotation
+        return ann is not None and _ann_head(ann) in _CONTAINER_TYPES
+
+    # ------------------------------------------------------------------ call targets
+    @staticmethod
+    def _placeholder(fi):
+        body = [s for s in fi.node.body if not (isinstance(s, ast.Expr) and isinstance(s.value, ast.Constant))]
+        return not body or (len(body) == 1 and isinstance(body[0], (ast.Raise, ast.Pass)))
+
+    def targets(self, f, call):
+        """'quiet' (cannot raise: logging / total builtin / container op / class without constructor), a list of
+        FuncInfo the call may run (package functions), or 'opaque' (driver, listener, callback, unknown)."""
+        from ..index import ClassInfo, FuncInfo
+        nm = call_name(call)
+        if nm is None:
+            return "opaque"
+        parts = nm.split(".")
+        if "dispatch" in parts or any(p.endswith("()") for p in parts[:-1]):
+            return "opaque"                      # event dispatch (user listeners) / call on a call result
+        if _is_log(nm) or (len(parts) >= 2 and parts[-2] in ("logger", "log", "_logger", "_log")):
+            return "quiet"
+        if nm in _TOTAL_CALLS:
+            return "quiet"
+        ix = self.ix
+        r = ix.resolve(f.module, nm)
+        if isinstance(r, FuncInfo):
+            return [r]
+        if isinstance(r, ClassInfo):
+            init = ix.resolve_method(r, "__init__")
+            return [init] if init is not None else "quiet"
+        if len(parts) == 1:
+            return "opaque"                      # a local / parameter / stored callable: a callback
+        recv = call.func.value
+        meth = parts[-1]
+        c = self.cls_of(f, recv)
+        cands = []
+        if c is not None:
+            f0 = ix.resolve_method(c, meth)
+            if f0 is not None:
+                cands.append(f0)
+            for s in ix.subclasses(c):
+                o = s.methods.get(meth)
+                if o is not None and not o.type_only and o not in cands:
+                    cands.append(o)
+        else:
+            if meth in _CONTAINER_OPS and self._container(f, recv):
+                return "quiet"
+            cands = [g for g in self.funcs if g.name == meth and g.cls is not None]
+        # a candidate must be able to take the call (a listener call `x.checkin(conn, rec)` is not `rec.checkin()`)
+        def takes(g_):
+            ar = g_.node.args
+            if ar.vararg or ar.kwarg:
+                return True
+            ps_ = list(g_.params)
+            if ps_ and g_.cls is not None and "staticmethod" not in g_.decorators:
+                ps_ = ps_[1:]
+            b_ = _bind(call, ps_)
+            if b_ is None or any(k_ not in ps_ for k_ in b_):
+                return False
+            dflt = func_defaults(g_.node)
+            return all(p_ in b_ or p_ in dflt for p_ in ps_)
+        cands = [g for g in cands if takes(g)]
+        real = [g for g in cands if not self._placeholder(g)]
+        cands = real or [g for g in cands if not any(isinstance(s, ast.Raise) for s in g.node.body)]
+        if not cands:
+            if meth in _CONTAINER_OPS and self._container(f, recv):
+                return "quiet"
+            return "opaque"
+        return cands
+
+    @staticmethod
+    def call_facts(g, call, via_receiver):
+        """{atom text: bool} the constant arguments / defaults of `call` establish about the parameters of `g`."""
+        params = list(g.params)
+        if via_receiver and params and g.cls is not None and "staticmethod" not in g.decorators:
+            params = params[1:]
+        elif params and g.cls is not None and "classmethod" in g.decorators:
+            params = params[1:]
+        vals = dict(func_defaults(g.node))
+        b = _bind(call, params)
+        if b is None:
+            return {}
+        vals.update(b)
+        facts = {}
+        for p_, v in vals.items():
+            if p_ in params and isinstance(v, ast.Constant):
+                if isinstance(v.value, bool):
+                    facts[p_] = v.value
+                    facts[p_ + " is None"] = False
+                elif v.value is None:
+                    facts[p_] = False
+                    facts[p_ + " is None"] = True
+        return facts
+
+    # ------------------------------------------------------------------ may-raise
+    def call_quiet(self, f, call, depth=0):
+        t = self.targets(f, call)
+        if t == "quiet":
+            return True
+        if t == "opaque":
+            return False
+        via = isinstance(call.func, ast.Attribute) and self.ix.resolve(f.module, call_name(call) or "") is None
+        return all(self.func_quiet(g, self.call_facts(g, call, via), depth + 1) for g in t)
+
+    def func_quiet(self, fi, facts, depth):
+        if fi.key in DISCARD_COMPLETES:
+            return True
+        k = (fi.key, tuple(sorted(facts.items())))
+        if k in self._quiet:
+            return self._quiet[k]
+        if k in self._busy_q:
+            return True                          # recursion: decided by the rest of the cycle
+        if depth > self.MAX_DEPTH or fi.module.relpath.split("/")[0] not in ("pool", "log.py", "util"):
+            return False
+        self._busy_q.add(k)
+        try:
+            g = self.ctx.cfg(fi)
+            from ._helpers_str_l import contradicted
+            live = g.reachable([g.entry], edge_ok=both(no_exc, cut_edges(contradicted(g, facts))))
+            ok = True
+            for n in g.nodes:
+                if n.id not in live or n.stmt is None:
+                    continue
+                if n.kind == "stmt" and isinstance(n.stmt, ast.Raise):
+                    ok = False
+                    break
+                if any(not self.call_quiet(fi, c, depth) for c in _own_calls(n)):
+                    ok = False
+                    break
+        finally:
+            self._busy_q.discard(k)
+        self._quiet[k] = ok
+        return ok
+
+    def silent_nodes(self, f, g):
+        """CFG nodes of `f` that cannot raise (asserts are not a fault source)."""
+        s = set()
+        for n in g.nodes:
+            if n.stmt is None or n.kind not in ("stmt", "test", "for", "with_enter", "match"):
+                continue
+            if n.kind == "stmt" and isinstance(n.stmt, ast.Raise):
+                continue
+            if all(self.call_quiet(f, c) for c in _own_calls(n)):
+                s.add(n.id)
+        return s
+
+    # ------------------------------------------------------------------ hand-back summaries
+    @staticmethod
+    def excuse(names):
+        """fact(expr, polarity): the branch outcome says that none of the records `names` (dotted) is owed to the pool:
+        no record / in-use marker already cleared / marker is somebody else's / the holder is already finalized."""
+        names = set(names)
+        marks = {n + ".fairy_ref" for n in names}
+        holders = {n.rsplit(".", 1)[0] + ".dbapi_connection" for n in names if "." in n}
+
+        def fact(a, p):
+            d = dotted(a)
+            if d is not None:
+                return (d in names or d in marks or d in holders) and not p
+            if not (isinstance(a, ast.Compare) and len(a.ops) == 1):
+                return False
+            l, r_ = dotted(a.left), dotted(a.comparators[0])
+            op = a.ops[0]
+            same = (isinstance(op, (ast.Is, ast.Eq)) and p) or (isinstance(op, (ast.IsNot, ast.NotEq)) and not p)
+            diff = (isinstance(op, (ast.Is, ast.Eq)) and not p) or (isinstance(op, (ast.IsNot, ast.NotEq)) and p)
+            ln, rn = (isinstance(x, ast.Constant) and x.value is None for x in (a.left, a.comparators[0]))
+            if ln or rn:
+                other = r_ if ln else l
+                return same and (other in names or other in marks or other in holders)
+            return diff and (l in marks or r_ in marks)
+        return fact
+
+    def hand_back(self, f, call, depth=0):
+        """Dotted texts (in `f`'s names) of the records that `call` hands back to the pool on all its normal paths."""
+        nm = call_name(call)
+        if nm is None or "." not in nm:
+            # module-level function (`_finalize_fairy(...)`)
+            if nm is None:
+                return set()
+        parts = nm.split(".")
+        if "dispatch" in parts:
+            return set()
+        if len(parts) >= 2 and parts[-1] in _RETURN_PRIMS:
+            if len(call.args) == 1 and not call.keywords and dotted(call.args[0]):
+                return {dotted(call.args[0])}
+            return set()
+        t = self.targets(f, call)
+        if not isinstance(t, list) or not t:
+            return set()
+        via = isinstance(call.func, ast.Attribute) and self.ix.resolve(f.module, nm) is None
+        recv = dotted(call.func.value) if via else None
+        out = None
+        for g in t:
+            if g.module is not self.m:
+                return set()
+            s = self.handback(g, self.call_facts(g, call, via), depth + 1)
+            params = list(g.params)
+            first = params[0] if (params and g.cls is not None and "staticmethod" not in g.decorators) else None
+            b = _bind(call, params[1:] if (first and (via or "classmethod" in g.decorators)) else params)
+            mapped = set()
+            for item in s:
+                head, _, rest = item.partition(".")
+                if head == first and via:
+                    base = recv
+                elif b is not None and head in b:
+                    base = dotted(b[head])
+                else:
+                    base = None
+                if base and "()" not in base:
+                    mapped.add(base + ("." + rest if rest else ""))
+            out = mapped if out is None else (out & mapped)
+        return out or set()
+
+    def sites(self, f, g, depth=0):
+        out = []
+        for n in g.nodes:
+            for c in _own_calls(n):
+                for r_ in sorted(self.hand_back(f, c, depth)):
+                    out.append((n.id, c, r_))
+        return out
+
+    def groups(self, f, sites):
+        """{canonical record name: (all its names, CFG nodes that hand it back)}; names that denote the same record
+        (`fairy._connection_record` of a fairy built around / always passed together with `connection_record`) merge."""
+        names = sorted({s[2] for s in sites})
+        canon = {}
+        for nmx in names:
+            al = sorted(a for a in _field_aliases(self.ctx, f, nmx) if a in names or a in f.params)
+            canon[nmx] = al[0] if al else nmx
+        out = {}
+        for nid, c, r_ in sites:
+            k = canon[r_]
+            e = out.setdefault(k, (set(), set()))
+            e[0].update((k, r_))
+            e[1].add(nid)
+        return out
+
+    def handback(self, fi, facts, depth=0):
+        """Records (dotted, rooted in a parameter of `fi`) that `fi` hands back on every normal path, except paths over an
+        outcome that excuses it (see `excuse`); branch edges contradicted by `facts` are infeasible."""
+        k = (fi.key, tuple(sorted(facts.items())))
+        if k in self._hb:
+            return self._hb[k]
+        if k in self._busy_hb or depth > self.MAX_DEPTH:
+            return frozenset()
+        self._busy_hb.add(k)
+        try:
+            from ._helpers_str_l import contradicted
+            g = rcfg(self.ctx, fi)
+            sites = self.sites(fi, g, depth)
+            res = set()
+            if sites:
+                infeasible = contradicted(g, facts)
+                for canon, (names, nodes) in self.groups(fi, sites).items():
+                    if canon.split(".")[0] not in fi.params:
+                        continue
+                    full, part = _edges_establishing(g, fi.node, self.excuse(names))
+                    w = g.witness([g.entry], [g.exit], avoid=nodes,
+                                  edge_ok=both(no_exc, cut_edges(infeasible), cut_edges(full + part)))
+                    if w is None:
+                        res.add(canon)
+            res = frozenset(res)
+        finally:
+            self._busy_hb.discard(k)
+        self._hb[k] = res
+        return res
+
+    def default_facts(self, fi):
+        facts = {}
+        for p_, v in func_defaults(fi.node).items():
+            if isinstance(v, ast.Constant) and isinstance(v.value, bool):
+                facts[p_] = v.value
+            elif isinstance(v, ast.Constant) and v.value is None:
+                pass                             # an Optional parameter is usually given
+        return facts
+
+
+def _acquires(e):
+    """`<pool>._do_get()` (also inside `cast(T, ...)`)."""
+    if isinstance(e, ast.Call) and (call_name(e) or "").split(".")[-1] == "cast" and len(e.args) == 2:
+        e = e.args[1]
+    nm = call_name(e) if isinstance(e, ast.Call) else None
+    return bool(nm) and "." in nm and nm.rsplit(".", 1)[-1] == _ACQUIRE_PRIM
+
+
+def every_exit_hands_back(ctx):
+    """C25-R7 / C26-R8 (one instance per function of pool/base.py that hands a record back)."""
+    sl = ctx.__dict__.get("_c25_slots")
+    if sl is None:
+        sl = ctx.__dict__["_c25_slots"] = _Slots(ctx)
+    # anchor: the return protocol itself
+    prim = [f for f in sl.funcs if f.cls is not None and f.name in _RETURN_PRIMS]
+    ctx.require(len(prim) >= 2, f"{POOL}: Pool._return_conn / _do_return_conn (the return protocol) not found")
+    handers = sorted({f.name for f in sl.funcs if sl.handback(f, sl.default_facts(f)) or sl.handback(f, {})})
+    ctx.require(len(handers) >= 4, f"only {handers} hand a record back on all their normal paths; expected checkin, "
+                                   "_checkin_failed, detach, _finalize_fairy, ...")
+    keep = tuple(sorted(set(handers) | set(_RETURN_PRIMS) | {k.rsplit(".", 1)[-1] for k in DISCARD_COMPLETES}))
+    n_inst = n_hard = 0
+    # the family, found on the raw functions first (cheap), judged on the normal form: a function with a hand-back
+    # call of its own, or one that calls such a function as an extracted helper (inlined by the normal form)
+    raw = {f0.key for f0 in sl.funcs if any(sl.hand_back(f0, c) or _acquires(c) for c in calls_in(f0.node))}
+    inlinable = {k.rsplit(".", 1)[-1].rsplit("::", 1)[-1] for k in raw} - set(keep)
+    for f0 in sl.funcs:
+        if f0.key not in raw and not any((call_name(c) or "").rsplit(".", 1)[-1] in inlinable for c in calls_in(f0.node)):
+            continue
+        f = _nf(ctx, f0, *keep, alias="dotted")
+        g = rcfg(ctx, f, strict_exc=True)
+        sites = sl.sites(f, g)
+        groups = sl.groups(f, sites)
+        # a record taken out of the pool here (`x = <pool>._do_get()`) is held from that statement on, whether or not the
+        # function has a hand-back for it
+        for n in g.nodes:
+            st = n.stmt
+            if n.kind == "stmt" and isinstance(st, (ast.Assign, ast.AnnAssign)) and st.value is not None and _acquires(st.value):
+                for t in (st.targets if isinstance(st, ast.Assign) else [st.target]):
+                    if isinstance(t, ast.Name) and not any(t.id in nm_ for nm_, _ in groups.values()):
+                        groups[t.id] = ({t.id}, set())
+        if not groups:
+            continue
+        ps = PathSense(g)
+        silent = sl.silent_nodes(f, g)
+        # a node of a `finally` copy without a normal successor only passes the pending exception on: keep its edge
+        mute = {n for n in silent if any(lab != "exc" for _, lab in g.succ[n])}
+        no_fault = lambda a, b, lab, mute=mute: not (a in mute and lab == "exc")  # noqa: E731
+        bad, wit, held_calls = [], None, 0
+        for canon, (names, nodes) in sorted(groups.items()):
+            head = canon.split(".")[0]
+            binds = [x.id for x in g.nodes if x.stmt is not None and x.kind in ("stmt", "for", "with_enter", "handler")
+                     and any(isinstance(y, ast.Name) and y.id == head and isinstance(y.ctx, (ast.Store, ast.Del))
+                             for part in ([x.stmt] if x.kind == "stmt" else own_exprs(x.stmt) if isinstance(x.stmt, ast.stmt) else [])
+                             for y in ast.walk(part))]
+            starts = [g.entry] if head in f.params else []
+            for b_ in binds:
+                st = g.nodes[b_].stmt
+                val = getattr(st, "value", None)
+                if isinstance(st, (ast.Assign, ast.AnnAssign)) and val is not None and not (isinstance(val, ast.Constant) and val.value is None):
+                    starts += [s_ for s_, lab in g.succ[b_] if lab != "exc"]
+            ctx.require(starts, f"{f.key}: cannot tell from where `{canon}` is held")
+            full, part = _edges_establishing(g, f.node, sl.excuse(names))
+            avoid = set(nodes) | set(binds)
+            ok_edges = both(quiet(g), no_fault, cut_edges(full))
+            # path-sensitive on flag locals (`done = False ... finally: if not done: <hand back>`)
+            w = ps.witness(starts, [g.raise_exit], avoid=avoid, edge_ok=ok_edges)
+            if w is not None and part and ps.witness(starts, [g.raise_exit], avoid=avoid,
+                                                     edge_ok=both(ok_edges, cut_edges(part))) is None:
+                t = g.nodes[part[0][0]].stmt
+                ctx.require(False, f"{f.key}: an exceptional exit without hand-back of `{canon}` depends on an outcome of "
+                                   f"`{unparse(t.test)[:80]}` that excuses it on some alternatives only; not understood")
+            region = g.reachable(starts, avoid=avoid, edge_ok=ok_edges)
+            leaks = []
+            for nid in sorted(region):
+                n = g.nodes[nid]
+                if nid in silent or not any(lab == "exc" for _, lab in g.succ[nid]) or n.kind not in ("stmt", "test", "for", "with_enter", "match"):
+                    continue
+                held_calls += 1
+                if w is not None and g.witness([nid], [g.raise_exit], avoid=avoid, edge_ok=ok_edges, start_edge_ok=_EXC_ONLY) is not None:
+                    if isinstance(n.stmt, ast.Raise):
+                        what = f"`{unparse(n.stmt)}`"
+                    else:
+                        cs = [c for c in _own_calls(n) if not sl.call_quiet(f, c)]
+                        what = f"a failure of `{unparse(cs[0].func)}(...)`" if cs else f"`{n.describe()}`"
+                    leaks.append((n.stmt.lineno, f"line {n.stmt.lineno}: {what} leaves without handing `{canon}` back"))
+            if w is not None:
+                bad.extend(leaks or [(0, f"an exceptional exit is reachable without a hand-back of `{canon}`")])
+                wit = wit or w
+        n_inst += 1
+        n_hard += bool(held_calls)
+        how = ", ".join(sorted({unparse(s[1].func) for s in sites})) or "no hand-back at all"
+        ctx.check(not bad, f.key + ":every-exceptional-exit-hands-back",
+                  "a pool slot is lost when this function is left by an exception -- " + "; ".join(m_ for _, m_ in sorted(set(bad))) +
+                  f".  The function is on its way to return the record ({how}) and nobody else will: the caller gets an exception, "
+                  "the in-use marker is cleared or about to be, so the record is neither in the pool nor counted as returned "
+                  "(checkedout() stays above the number of live checkouts; after pool_size + max_overflow such exits every checkout "
+                  "times out).  Raising calls = DBAPI / dialect / event listener / stored callback, incl. BaseException "
+                  "(CancelledError, KeyboardInterrupt)",
+                  f"every exceptional exit while the record is held passes {how} ({held_calls} raising statement(s) in the held region)",
+                  f.loc, wit, nontrivial=bool(held_calls))
+    ctx.require(n_inst >= 6, f"only {n_inst} function(s) of {POOL} hand a record back; expected checkin, _checkin_failed, checkout, "
+                             "_finalize_fairy, _checkout, detach, Pool._return_conn, ...")
+    ctx.require(n_hard >= 3, f"only {n_hard} function(s) of {POOL} hold a record across a call that can raise; expected checkin, "
+                             "checkout, _finalize_fairy, _checkout")
+
+
+@R.rule("C25-R7", floor=8, template="T-PATH",
+        desc="no slot is lost on an exceptional exit: every function of pool/base.py that hands a record back "
+             "(Pool._return_conn / _do_return_conn, directly or through functions that end in it: checkin, _checkin_failed, "
+             "detach, _finalize_fairy, fairy close / hard invalidate) passes such a hand-back on every exceptional exit that is "
+             "reachable while it holds the record -- from its entry for a record it is given, from the acquisition otherwise -- "
+             "unless a branch outcome says that there is nothing to return (no record, fairy_ref already cleared or somebody "
+             "else's).  Opaque calls (DBAPI, dialect, event listeners, stored callbacks) can raise any BaseException; logging, "
+             "container operations, total builtins and package functions made of those cannot; discarding a connection "
+             "(invalidate / __close) is assumed to complete")
+def r7(ctx):
+    every_exit_hands_back(ctx)
 
 
 # ---------------------------------------------------------------------- self-test battery
